@@ -312,10 +312,13 @@ Theorem C13_entity_history_example :
 Proof. exact entity_history_example. Qed.
 Print Assumptions C13_entity_history_example.
 
-(* the excluded class is a defect of the code, not of the proof: acceptQuery puts the URL keys in
-   front of `page` / `query` in <Name>ListRequest / <Name>EventsRequest and mapProperties numbers
-   by position (the ProtoField 100 / 101 written in entity.go is ignored), so a second primary
-   key appended to the README entity moves FooEventsRequest.page from 2 to 3 *)
+(* OBSERVATION about an edit OUTSIDE the property's quantifier (C13 covers fields / options /
+   declarations appended to user-declared objects, oneofs, enums, services and topics; a primary /
+   shard key appended to an entity changes the resource path by its nature and is not among them):
+   acceptQuery puts the URL keys in front of `page` / `query` in <Name>ListRequest /
+   <Name>EventsRequest and mapProperties numbers by position (the ProtoField 100 / 101 written in
+   entity.go is ignored), so a second primary key appended to the README entity moves
+   FooEventsRequest.page from 2 to 3.  This is why C13_entity_histories carries [eedit_ok]. *)
 Theorem C13_entity_append_url_key_witness :
   forallb eedit_ok w_url_edit = false /\
   valid (expand_bundle w_ent) = true /\ valid (expand_bundle (apply_eedits w_ent w_url_edit)) = true /\
@@ -324,8 +327,10 @@ Theorem C13_entity_append_url_key_witness :
 Proof. exact entity_url_key_witness. Qed.
 Print Assumptions C13_entity_append_url_key_witness.
 
-(* ... so the statement for ALL histories of entity edits is false of the model (and of the code:
-   corpus pair `entity-append-primary-key`, recorded finding) *)
+(* ... so the entity theorem cannot be stated without [eedit_ok]: the statement that ALSO
+   quantifies over appended URL keys is false of the model (and of the compiler: corpus pair
+   `entity-append-primary-key` of the correspondence).  Not a refutation of property C13 - the
+   edit is outside its quantifier -, an observation that delimits C13_entity_histories. *)
 Theorem C13_entity_full_refuted : ~ C13_entity_full_statement.
 Proof. exact entity_full_refuted. Qed.
 Print Assumptions C13_entity_full_refuted.
